@@ -27,8 +27,8 @@ def _oracle(field):
 
 def _case_term(l):
     p = l.split()
-    _, isz, vec, cfgfile, b64set, ok, rest, help_, n = p[:9]
-    blocks = p[9:]
+    _, isz, callno, unchanged, vec, cfgfile, b64set, ok, rest, help_, n = p[:11]
+    blocks = p[11:]
     fos = []
     for i in range(int(n)):
         (kind, group, goname, tag, hname, hdef, bound, usage, init, envhand, envobs, env, jfile, jb64, final,
@@ -39,9 +39,10 @@ def _case_term(l):
                        _KIND[kind], coq_bytes(group), coq_bytes(goname), coq_bytes(tag), coq_bytes(hname), coq_bytes(hdef),
                        "true" if bound == "1" else "false", coq_bytes(usage), coq_bytes(init), coq_bytes(envhand), coq_bytes(envobs),
                        _opt(env), _opt(jfile), _opt(jb64), _opt(final), _oracle(oracle)))
-    return "verdict_ok (check_case %s [%s] %s %s %s %s %s %s)" % (
+    return "verdict_ok (check_case %s [%s] %s %s %s %s %s %s %s %s)" % (
         isz, ";\n     ".join(fos), _toks(vec), _opt(cfgfile), "true" if b64set == "1" else "false",
-        "true" if ok == "1" else "false", _toks(rest), "None" if help_ == "~" else ("(Some true)" if help_ == "1" else "(Some false)"))
+        "true" if ok == "1" else "false", _toks(rest), "None" if help_ == "~" else ("(Some true)" if help_ == "1" else "(Some false)"),
+        callno, "true" if unchanged == "1" else "false")
 
 
 def c09_casesv(lines):
